@@ -63,29 +63,34 @@ def confirm(pid, k, name):
 
 
 def run(name, checks, tier="quick"):
+    """Run checks against the seeded change in a scratch worktree of /repo (RV_REPO), never in /repo itself."""
     d = os.path.join(VERIF, "seeded", name)
     meta = json.load(open(os.path.join(d, "meta.json")))
-    rc, out = sh("git -C /repo status --porcelain")
-    if out.strip():
-        print("/repo not clean:", out)
-        return 2
-    rc, out = sh("git -C /repo apply %s/patch.diff" % d)
+    wt = "/tmp/mut/%s.%d" % (name, os.getpid())
+    os.makedirs("/tmp/mut", exist_ok=True)
+    rc, out = sh("git -C /repo worktree add -q --detach %s HEAD" % wt)
     if rc:
-        print("patch does not apply to /repo:", out)
+        print("cannot create worktree:", out)
         return 2
     try:
+        rc, out = sh("git apply %s/patch.diff" % d, cwd=wt)
+        if rc:
+            print("patch does not apply:", out)
+            return 2
         for c in checks:
             t0 = time.time()
-            rc, out = sh("./check %s --tier %s" % (c, tier), cwd=VERIF, env={"RV_NO_EVIDENCE": "1"})
+            rc, out = sh("./check %s --tier %s" % (c, tier), cwd=VERIF, env={"RV_NO_EVIDENCE": "1", "RV_REPO": wt})
             det = rc == 1 and "VIOLATION property=%s" % c in out
             lines = [l for l in out.splitlines() if l.startswith(("  rejected", "VIOLATION", "MACHINERY", "OK ", "KNOWN"))]
+            rej = [l for l in lines if l.startswith("  rejected")]
             meta["detected_by"][c + ":" + tier] = {"detected": det, "exit": rc, "wall_s": round(time.time() - t0, 1),
-                                                   "first_lines": [l[:400] for l in lines[:3]]}
-            print(name, c, tier, "DETECTED" if det else "missed (exit %d)" % rc, "%.0fs" % (time.time() - t0))
+                                                   "first_rejections": [l[:300] for l in rej[:2]]}
+            print(name, c, tier, "DETECTED" if det else "missed (exit %d)" % rc, "%.0fs" % (time.time() - t0), flush=True)
             if not det:
                 print("\n".join(l[:300] for l in lines[:5]))
     finally:
-        sh("git -C /repo checkout -- .")
+        sh("git -C /repo worktree remove --force %s" % wt)
+        sh("git -C /repo worktree prune")
     json.dump(meta, open(os.path.join(d, "meta.json"), "w"), indent=1)
     return 0
 
